@@ -314,6 +314,8 @@ func runC03(p *Program, r *Result) {
 	r.Rule("R03.6", "every error return carries a nil reader", 8)
 	checkNothingOnError(p, r, dec, map[string]bool{newReader.String(): true})
 	checkNothingOnError(p, r, newReader, nil)
+	r.Rule("R03.8", "the header MAC is a function of the file key and the header alone: no package-level state in its computation", 1)
+	checkNoPackageState(p, r, []*ssa.Function{r.anchor(pkgAge, "", "headerMAC"), r.anchor(pkgAge, "", "Decrypt")}, nil)
 }
 
 func rootsString(rs []Root) string {
